@@ -19,7 +19,7 @@ RULE = ('Every nesting shape of {if, if-else, if-elif, if-elif-else, while, for,
         'is defined exactly once in the scope of the jump; every __bareScript* label is the target of >= 1 jump of its scope; lint_script '
         'reports no unknown/unused/redefined label; executing the model (conditions driven both ways) never raises Unknown jump label. '
         'Non-trivial: depth >= 2 with both an if-family and a loop construct. Distinct by source text.')
-RULE += ' Also: the programs of C01 with all their later extensions (literal `while`, unreachable statements after break / continue, keyword-like and non-ASCII names, redefinitions).'
+RULE += ' Also: the programs of C01 with all their later extensions (literal `while`, unreachable statements after break / continue, keyword-like and non-ASCII names, redefinitions). Round 5: the same source handed over in 2-4 parts cut at arbitrary lines must give the same lowering.'
 ASSUMPTIONS = ['user code never uses the reserved __bareScript prefix', 'schema validation is done by the published model (validate_script)']
 
 
